@@ -215,6 +215,7 @@ type cptr struct {
 type cmachine struct {
 	budget int
 	fail   bool
+	depth  int
 }
 
 func (m *cmachine) stop() any { m.fail = true; return nil }
@@ -490,7 +491,31 @@ func (m *cmachine) run(fn *ssa.Function, args []any) any {
 				env[y] = int64(s[i])
 			case *ssa.Call:
 				bi, ok := y.Call.Value.(*ssa.Builtin)
-				if !ok || bi.Name() != "len" || len(y.Call.Args) != 1 {
+				if !ok {
+					// a call of a function with a body and no captured variables
+					// (a predicate split into two helpers): run it on the same
+					// machine, the budget bounds the recursion
+					callee := y.Call.StaticCallee()
+					if callee == nil || callee.Blocks == nil || y.Call.IsInvoke() || len(callee.FreeVars) != 0 || callee.Signature.Results().Len() != 1 || m.depth > 8 {
+						return m.stop()
+					}
+					cargs := make([]any, len(y.Call.Args))
+					for i, a := range y.Call.Args {
+						cargs[i] = get(a)
+					}
+					if m.fail {
+						return m.stop()
+					}
+					m.depth++
+					rv := m.run(callee, cargs)
+					m.depth--
+					if m.fail || rv == nil {
+						return m.stop()
+					}
+					env[y] = rv
+					continue
+				}
+				if bi.Name() != "len" || len(y.Call.Args) != 1 {
 					return m.stop()
 				}
 				switch a := get(y.Call.Args[0]).(type) {
